@@ -1,41 +1,7 @@
 #!/usr/bin/env python3
 """prints the markdown table of seeded changes (DESIGN.md 7.4) from /verif/seeded/*/meta.json"""
 import json, os, re
-MISSED_FIRST = {
- "C02-w1A": "C02 slices had no strides -2/-3", "C03-w1B": "no recording longer than the reconstructor's 60000-sample window (clause `long` added)",
- "C05-w1A": "agc rows only down to 1e-3 (tiny amplitudes added)", "C06-w1B": "append was only run with one worker (append x workers x schedules added)",
- "C07-w1A": "no call sequence over neighbouring lengths in one process (clause `history` added)", "C07-w1B": "delay family had no length of the form 4k+2 (62, 82, 102 added)",
- "C08-w1A": "NP2.4 sub-grid had rows 0 and 47 only (row 600 added)", "C09-w1B": "grammar alphabet could not reach list elements >= 1e6 (clause `intlists` added)",
- "C11-w1B": "ignore_warnings=True not exercised (added to both clauses)", "C12-w1B": "both shanks had the same number of sites (1 + 3 now; C04 too)",
- "C13-w1A": "harness error (task count recomputed by the harness) then no recording length with 86 < ns % chunk <= 128 (lengths added, task count taken from the run)",
- "C15-w1A": "no bad channel whose only neighbours are outside-brain channels (mode `in-outside-block` added)",
- "C01-w2B": "no recording saved without the sync word (nsync=0 configurations added to C01 and C09)", "C02-w2A": "compress_file(check_after_compress=False) not in the event menu (added)",
- "C04-w2A": "a fresh converter per run only (two process() calls on the same object added)", "C04-w2B": "original always consistent with its metadata (initial state `meta-shorter` added)",
- "C05-w2A": "outside-brain labels only as a top block (clause `labels-anywhere` added)", "C05-w2B": "no array longer than 65536 samples (clause `long-arrays` added)",
- "C10-w2B": "NOT CAUGHT, deliberately: the statement does not say whether a sample exactly at the analog threshold is high or low",
- "C11-w2A": "int16 files only (clause `sample-formats`: float32/int32 with metadata added)", "C12-w2A": "offset entry point of the NP2.1 path not exercised (clause `sub-range` added)",
- "C13-w2A": "each extraction used its own path (a second, different recording at the same path in the same process added)",
- "C16-w2A": "the two rules were only exercised one at a time (clause `both-rules` added)", "C18-w2A": "one sampling interval per process (clause `filter-sequences` added)",
- "C01-w3B": "every read was compared at once (clause `kept-results`: arrays returned earlier are re-checked after later reads)",
- "C02-w3B": "in-place decompression onto an existing .bin was not an enabled event (now enabled: refusal without change, or completion)",
- "C03-w3B": "a fresh converter per run (clause `rerun`: forced re-split on the same / a fresh object, then reconstruct)",
- "C04-w3A": "shank numbers were 0..k-1 and the NP2.4_shank key was not part of the validity predicate (shanks {1,3}; key and stream type checked)",
- "C05-w3B": "no dead/noisy label together with an ADC-skewed stripe and a per-channel criterion (patterns with labels 1/2 added to `labels-anywhere`)",
- "C06-w3A": "whitening matrices were symmetric (cyclic permutation and bidiagonal matrices added)",
- "C06-w3B": "one header per process (two runs in one process whose headers differ only by their sampling delays added)",
- "C07-w3B": "the array of per-trace shifts was never reused (reuse over blocks of different lengths added to `history`)",
- "C09-w3B": "parse/write only (clause `used`: parse, derive through the Reader, write, parse)",
- "C10-w3B": "every decode used a fresh array (case `twice`: same int16 array decoded repeatedly, input compared afterwards)",
- "C11-w3A": ".ch always written with the metadata's rate (streams compressed at the nominal rate, 5000-61003 samples, added)",
- "C11-w3B": "readers were always opened at construction (clause `deferred-open` added)",
- "C12-w3A": "four window sizes only (clause `window-sweep`: every multiple of 12 from 588 to 1320, thorough to 20000)",
- "C12-w3B": "no forced re-conversion in C12 (clause `rerun` added; C04 already caught it)",
- "C15-w3B": "one geometry per label vector and process (mode `geometry-sequence` added)",
- "C16-w3A": "slew steps never crossed zero (zero-crossing steps added)", "C16-w3B": "range array never reused between calls (repeated call with the same array added)",
- "C18-w3B": "frequency scale never edited by a caller between two requests (added to `filter-sequences`)",
- "C19-w3B": "each map evaluated right after its own fit (clause `kept-maps` added)",
- "C19-w2B": "trains too short for drift x duration to exceed the coarse bin (clause `long-trains` added)", "C20-w2A": "real-valued random abscissae only (clause `savgol-lattice` added)",
-}
+MISSED_FIRST = json.load(open('/verif/seeded/history.json'))
 rows = []
 for d in sorted(os.listdir('/verif/seeded')):
     f = os.path.join('/verif/seeded', d, 'meta.json')
